@@ -861,6 +861,36 @@ theorem sendData_true (h h' : Host) (cs : List Bytes) (hne : ∀ c ∈ cs, c ≠
       · omega
   · simp [ho] at hr
 
+/-- `_send_data(NO_COMMAND, …)` (`load_image`) returns `True` only if every data packet was written without any error
+    (on the serial link: acknowledged) — a NAK on the last packet yields `False` -/
+theorem sendDataNoResp_true (h h' : Host) (cs : List Bytes) (hne : ∀ c ∈ cs, c ≠ [])
+    (hr : sendDataNoResp cs h = (.ok true, h')) :
+    ∃ h1, sendChunks h.eda cs 0 h = (.ok ((cs.map List.length).sum, none), h1) := by
+  unfold sendDataNoResp at hr
+  simp only [bind_run, requireOpen, get_run] at hr
+  by_cases ho : h.opened = true
+  · simp only [ho, if_true, pure_run] at hr
+    obtain ⟨sent, err, h1, e1, e2⟩ := sendChunks_result h.eda cs 0 h hne
+    rw [e1] at hr
+    simp only at hr
+    cases err with
+    | none =>
+      rcases e2 with ⟨_, e4⟩ | ⟨e3, _⟩
+      · exact ⟨h1, by rw [e1, e4]; simp⟩
+      · exact absurd rfl e3
+    | some e =>
+      simp only at hr
+      rcases e2 with ⟨e3, _⟩ | ⟨_, e4⟩
+      · cases e3
+      · by_cases ht : e = .timeout
+        · simp [ht] at hr
+        · by_cases hsp : e.isSpsdk = true
+          · simp only [ht, if_false, hsp, if_true, bind_run, setStatus_run, pure_run, Prod.mk.injEq, Except.ok.injEq,
+              beq_iff_eq] at hr
+            omega
+          · simp [ht, hsp] at hr
+  · simp [ho] at hr
+
 /-! ### NAK / ABORT in place of an ACK -/
 
 theorem readFrameHeader_ack (h : Host) (t : UInt8) (r : Bytes)
